@@ -238,6 +238,24 @@ fn run_op(tx: &mut Transaction, op: &Value) -> Value {
                         AES::encrypt(&k, &iv, &m, algo).map(|_| ()).map_err(|e| e.to_string())
                     }
                 }
+                "pubkey_use" => {
+                    // decode a public key, then use it through the public API: decompress, verify against a digest, interpreter-style tx verification
+                    match PublicKey::from_bytes(&bytes) {
+                        Err(e) => Err(e.to_string()),
+                        Ok(pk) => {
+                            let key = PrivateKey::from_bytes(&[7u8; 32]).unwrap();
+                            let sig = key.sign_message(b"m").unwrap();
+                            let _ = pk.to_decompressed();
+                            let _ = pk.to_compressed();
+                            let _ = ECDSA::verify_hashbuf(&[1u8; 32], &pk, &sig);
+                            let _ = ECDSA::verify_digest(b"m", &pk, &sig, SigningHash::Sha256);
+                            let _ = P2PKHAddress::from_pubkey(&pk);
+                            let _ = ECDH::derive_shared_key(&key, &pk);
+                            let _ = ECIES::derive_cipher_keys(&key, &pk);
+                            Ok(())
+                        }
+                    }
+                }
                 "outpoint" => TxIn::from_outpoint_bytes(&bytes).map(|_| ()).map_err(|e| e.to_string()),
                 "compact" => Signature::from_compact_bytes(&bytes).map(|_| ()).map_err(|e| e.to_string()),
                 "sighash_sig" => SighashSignature::from_bytes(&bytes, &[]).map(|_| ()).map_err(|e| e.to_string()),
@@ -616,6 +634,159 @@ fn run_op(tx: &mut Transaction, op: &Value) -> Value {
                 problems.push("ECDH is not symmetric".into());
             }
             problems.truncate(8);
+            json!({ "ok": { "problems": problems } })
+        }
+        "checksig" => {
+            // spends assembled and signed through the API must be accepted; any change to signed data, value, key, signature or flag must be rejected
+            fn accepted(tx: &Transaction, idx: usize) -> Result<bool, String> {
+                let r = catch_unwind(AssertUnwindSafe(|| {
+                    let mut i = match Interpreter::from_transaction(tx, idx) {
+                        Ok(i) => i,
+                        Err(_) => return false,
+                    };
+                    match i.run() {
+                        Ok(()) => i.state().stack().last().map(|t| t.iter().any(|b| *b != 0)).unwrap_or(false),
+                        Err(_) => false,
+                    }
+                }));
+                r.map_err(|_| "panic".to_string())
+            }
+            let flag_byte = op["flag"].as_u64().unwrap_or(0x41) as u8;
+            let flag = SigHash::try_from(flag_byte).unwrap();
+            let value = op["value"].as_u64().unwrap_or(5000);
+            let kind = op["kind"].as_str().unwrap_or("p2pkh");
+            let keys: Vec<PrivateKey> = (1u8..=3).map(|i| PrivateKey::from_bytes(&[i * 17; 32]).unwrap()).collect();
+            let pubs: Vec<PublicKey> = keys.iter().map(|k| k.to_public_key().unwrap()).collect();
+            let pubhex: Vec<String> = pubs.iter().map(|p| p.to_hex().unwrap()).collect();
+            // locking script (with a code separator in front when asked) and the subscript the signatures commit to
+            let sep = op["separator"].as_bool().unwrap_or(false);
+            let (m, n) = (op["m"].as_u64().unwrap_or(2) as usize, op["n"].as_u64().unwrap_or(3) as usize);
+            let core = match kind {
+                "p2pk" => format!("{} OP_CHECKSIG", pubhex[0]),
+                "p2pkh" => format!("OP_DUP OP_HASH160 {} OP_EQUALVERIFY OP_CHECKSIG", Hash::hash_160(&pubs[0].to_bytes().unwrap()).to_hex()),
+                _ => format!("OP_{} {} OP_{} OP_CHECKMULTISIG", m, pubhex[..n].join(" "), n),
+            };
+            let lock_asm = if sep { format!("OP_1 OP_DROP OP_CODESEPARATOR {}", core) } else { core.clone() };
+            let locking = Script::from_asm_string(&lock_asm).unwrap();
+            let subscript = Script::from_asm_string(&core).unwrap();
+            let mut tx = Transaction::new(2, 7);
+            let mut other = TxIn::new(&[9u8; 32], 1, &Script::from_asm_string("OP_1").unwrap(), Some(0xfffffffe));
+            other.set_satoshis(1);
+            other.set_locking_script(&Script::from_asm_string("OP_1").unwrap());
+            let mut txin = TxIn::new(&[3u8; 32], 2, &Script::default(), Some(0xffffffff));
+            txin.set_satoshis(value);
+            txin.set_locking_script(&locking);
+            tx.add_input(&other);
+            tx.add_input(&txin);
+            tx.add_output(&TxOut::new(1234, &Script::from_asm_string("OP_2").unwrap()));
+            tx.add_output(&TxOut::new(99, &Script::from_asm_string("OP_3 OP_4").unwrap()));
+            let idx = 1usize;
+            let signers: Vec<usize> = if kind == "multisig" { (n - m..n).collect() } else { vec![0] };
+            let mut sigs: Vec<String> = vec![];
+            for k in &signers {
+                sigs.push(tx.sign(&keys[*k], flag, idx, &subscript, value).unwrap().to_hex().unwrap());
+            }
+            let unlock_asm = |sigs: &Vec<String>| match kind {
+                "p2pk" => sigs[0].clone(),
+                "p2pkh" => format!("{} {}", sigs[0], pubhex[0]),
+                _ => format!("OP_0 {}", sigs.join(" ")),
+            };
+            let with_unlock = |tx: &Transaction, asm: &str| {
+                let mut t = tx.clone();
+                let mut i = t.get_input(idx).unwrap();
+                i.set_unlocking_script(&Script::from_asm_string(asm).unwrap());
+                t.set_input(idx, &i);
+                t
+            };
+            let good = with_unlock(&tx, &unlock_asm(&sigs));
+            let mut problems: Vec<String> = vec![];
+            let mut expect = |what: &str, t: &Transaction, want: bool| match accepted(t, idx) {
+                Ok(got) if got == want => {}
+                Ok(got) => problems.push(format!("{}: accepted={} expected={}", what, got, want)),
+                Err(e) => problems.push(format!("{}: {}", what, e)),
+            };
+            expect("spend signed through the API", &good, true);
+            let base = flag_byte & 0x1f;
+            let forkid = flag_byte & 0x40 != 0;
+            let acp = flag_byte & 0x80 != 0;
+            // signed-field mutations (only those the flag commits to)
+            {
+                let mut t = good.clone();
+                t.set_version(3);
+                expect("version changed after signing", &t, false);
+                let mut t = good.clone();
+                t.set_nlocktime(8);
+                expect("locktime changed after signing", &t, false);
+                if base == 1 {
+                    let mut t = good.clone();
+                    t.set_output(1, &TxOut::new(100, &Script::from_asm_string("OP_3 OP_4").unwrap()));
+                    expect("an output value changed after signing", &t, false);
+                }
+                if !acp {
+                    let mut t = good.clone();
+                    let mut o = t.get_input(0).unwrap();
+                    o.set_vout(5);
+                    t.set_input(0, &o);
+                    expect("another input's outpoint changed after signing", &t, false);
+                }
+                if forkid {
+                    let mut t = good.clone();
+                    let mut i = t.get_input(idx).unwrap();
+                    i.set_satoshis(value + 1);
+                    t.set_input(idx, &i);
+                    expect("declared value of the spent output changed after signing", &t, false);
+                }
+                let mut t = good.clone();
+                let mut i = t.get_input(idx).unwrap();
+                i.set_sequence(5);
+                t.set_input(idx, &i);
+                expect("own sequence changed after signing", &t, false);
+            }
+            // signature / flag / key mutations
+            {
+                let mut s2 = sigs.clone();
+                let mut raw = hex::decode(&s2[0]).unwrap();
+                let l = raw.len();
+                raw[l - 3] ^= 1;
+                s2[0] = hex::encode(&raw);
+                expect("one signature byte flipped", &with_unlock(&tx, &unlock_asm(&s2)), false);
+                let mut s3 = sigs.clone();
+                let mut raw = hex::decode(&s3[0]).unwrap();
+                let l = raw.len();
+                raw[l - 1] = if flag_byte == 0x41 { 0x42 } else { 0x41 };
+                s3[0] = hex::encode(&raw);
+                expect("flag byte of the signature changed", &with_unlock(&tx, &unlock_asm(&s3)), false);
+                // signature by a key that is not the designated one
+                let mut s4 = sigs.clone();
+                let stranger = PrivateKey::from_bytes(&[0x77; 32]).unwrap();
+                s4[0] = tx.clone().sign(&stranger, flag, idx, &subscript, value).unwrap().to_hex().unwrap();
+                expect("signature by a different key", &with_unlock(&tx, &unlock_asm(&s4)), false);
+                // signature over the byte-reversed digest of the right preimage
+                let pre = tx.clone().sighash_preimage(flag, idx, &subscript, value).unwrap();
+                let mut dg = Hash::sha_256d(&pre).to_bytes();
+                dg.reverse();
+                let rsig = ECDSA::sign_digest_with_deterministic_k(&keys[signers[0]], &dg).unwrap();
+                let mut rb = rsig.to_der_bytes();
+                rb.push(flag_byte);
+                let mut s5 = sigs.clone();
+                s5[0] = hex::encode(&rb);
+                expect("signature over the byte-reversed sighash", &with_unlock(&tx, &unlock_asm(&s5)), false);
+                // signature committing to the whole locking script although a code separator was executed before the check
+                if sep {
+                    let mut s6 = sigs.clone();
+                    s6[0] = tx.clone().sign(&keys[signers[0]], flag, idx, &locking, value).unwrap().to_hex().unwrap();
+                    expect("signature over the script including the part before the executed code separator", &with_unlock(&tx, &unlock_asm(&s6)), false);
+                }
+                if kind == "multisig" && m >= 2 {
+                    let mut s7 = sigs.clone();
+                    s7.reverse();
+                    expect("multisig signatures in the wrong order", &with_unlock(&tx, &unlock_asm(&s7)), false);
+                    let mut s8 = sigs.clone();
+                    s8[1] = s8[0].clone();
+                    expect("multisig with the same signature twice", &with_unlock(&tx, &unlock_asm(&s8)), false);
+                }
+            }
+            problems.truncate(10);
             json!({ "ok": { "problems": problems } })
         }
         "hash" => {
